@@ -519,7 +519,18 @@ struct Lower {
     if (CD->isCopyOrMoveConstructor() && CD->isTrivial()) return "(*(" + ptr + ") = " + ex(CE->getArg(0)) + ")";
     if (stdOpaqueFn(CD)) {
       if (!isOpaque(CD->getParent())) throw Unsupported{"constructor of a transparent std record is not lowered: " + CD->getQualifiedNameAsString()};
-      return "(void)0 /* std ctor of opaque record dropped: " + CD->getQualifiedNameAsString() + " */";
+      // default construction of a standard container = the empty container (every container model starts empty); a sized
+      // std::vector(n) is not dropped: the model is told the initial size (n value-initialised elements)
+      bool defaulted = true;
+      for (unsigned i = 0; i < CE->getNumArgs(); ++i) if (!isa<CXXDefaultArgExpr>(CE->getArg(i))) defaulted = false;
+      std::string q = CD->getQualifiedNameAsString();
+      if (!defaulted && q.rfind("std::vector<", 0) == 0 && CE->getNumArgs() >= 1 && CE->getArg(0)->getType()->isIntegerType())
+        return "__ipr_vec_init((void*)(" + ptr + "), " + ex(CE->getArg(0)) + ") /* std::vector(n): n value-initialised elements */";
+      if (!defaulted && !CD->isCopyOrMoveConstructor() && CE->getNumArgs() == 1 && q.find("iterator") != std::string::npos && CE->getArg(0)->getType()->getAsCXXRecordDecl() && isOpaque(CE->getArg(0)->getType()->getAsCXXRecordDecl()))
+        return "memcpy((void*)(" + ptr + "), (void*)&(" + ex(CE->getArg(0)) + "), sizeof(*(" + ptr + "))) /* iterator -> const_iterator conversion: same designated element */";
+      if (!defaulted && !(CD->isCopyOrMoveConstructor())) throw Unsupported{"constructor of an opaque std record with arguments: " + q};
+      if (CD->isCopyOrMoveConstructor()) return "__ipr_container_copy((void*)(" + ptr + "), (void*)&(" + ex(CE->getArg(0)) + "), \"" + jsonEsc(q) + "\")";
+      return "(void)0 /* default construction of an opaque std record: empty container (" + q + ") */";
     }
     std::string s = fn(CD) + "(" + ptr;
     for (unsigned i = 0; i < CE->getNumArgs(); ++i) s += ", " + arg(CE->getArg(i), CD->getParamDecl(i)->getType());
@@ -564,8 +575,25 @@ struct Lower {
           return virtcall(MD, self, X, 0);
         }
         MD = Dev; FD = Dev;
-        if (!OC->getDefinition()->isDerivedFrom(MD->getParent()->getDefinition()) && OC->getDefinition() != MD->getParent()->getDefinition())
-          throw Unsupported{"devirtualised to a class below the static type"};
+        if (!OC->getDefinition()->isDerivedFrom(MD->getParent()->getDefinition()) && OC->getDefinition() != MD->getParent()->getDefinition()) {
+          // the final overrider lives in a class DERIVED from the static type of the object expression (clang proved the dynamic
+          // type): container_of along the unique base path from that class down to the static type
+          const CXXRecordDecl* DR = MD->getParent()->getDefinition();
+          CXXBasePaths Paths(true, true, false);
+          if (!DR->isDerivedFrom(OC->getDefinition(), Paths) || Paths.begin() == Paths.end()) throw Unsupported{"devirtualised to an unrelated class"};
+          std::string member; const CXXRecordDecl* cur = DR;
+          for (auto& El : Paths.front()) {
+            auto* BD = El.Base->getType()->getAsCXXRecordDecl()->getDefinition();
+            int bi = 0, found = -1;
+            for (auto& B : cur->bases()) { if (B.getType()->getAsCXXRecordDecl()->getDefinition() == BD) found = bi; bi++; }
+            if (found < 0) throw Unsupported{"devirtualised downcast path"};
+            member += (member.empty() ? "" : ".") + std::string("__b") + std::to_string(found); cur = BD;
+          }
+          needRecord(DR);
+          std::string dt = "struct " + rec(DR);
+          self = "((" + dt + "*)((char*)(" + self + ") - __builtin_offsetof(" + dt + ", " + member + ")))";
+          OC = DR;
+        }
       }
       if (OC->getDefinition() != MD->getParent()->getDefinition()) self = upcast(self, OC, MD->getParent());
       if (stdOpaqueFn(MD)) return stdcall(MD, self, X, 0);
@@ -760,18 +788,19 @@ struct Lower {
       if (auto* CAT = C.getAsConstantArrayType(AT))
         return "(&(" + ex(X->getArg(first)) + ")[" + ((q == "std::begin" || q == "std::cbegin") ? std::string("0") : std::to_string(CAT->getSize().getZExtValue())) + "])";
     }
-    if (q.rfind("std::forward_list<",0)==0 && FD->getNameAsString()=="emplace_front") {
+    bool dqEmplace = q.rfind("std::deque<",0)==0 && FD->getNameAsString()=="emplace_back";
+    if ((q.rfind("std::forward_list<",0)==0 && FD->getNameAsString()=="emplace_front") || dqEmplace) {
       auto* MD = llvm::cast<CXXMethodDecl>(FD);
       auto* Spec = dyn_cast<ClassTemplateSpecializationDecl>(MD->getParent());
       const CXXRecordDecl* T = Spec->getTemplateArgs()[0].getAsType()->getAsCXXRecordDecl();
       const FunctionDecl* CF = findPlacementFn(FD, T);
-      if (!CF) throw Unsupported{"emplace_front: construct function not found"};
+      if (!CF) throw Unsupported{"emplace_front/emplace_back: construct function not found"};
       transparentStd.insert(CF);
       std::string pt = declareAbstract(C.getPointerType(QualType(T->getTypeForDecl(),0)));
       std::string t = "__n" + std::to_string(tmpId++);
       std::string r = "({ " + pt + " " + t + " = (" + pt + ")__ipr_alloc(sizeof(*" + t + ")); " + fn(CF) + "(" + t;
       for (unsigned i = first; i < X->getNumArgs(); ++i) r += ", " + arg(X->getArg(i), CF->getParamDecl(i-first+1)->getType());
-      r += "); __ipr_fl_push((void*)" + self + ", " + t + "); " + t + "; })";
+      r += std::string("); ") + (dqEmplace ? "__ipr_dq_push" : "__ipr_fl_push") + "((void*)" + self + ", " + t + "); " + t + "; })";   // deque: elements individually allocated, references stable
       return FD->getReturnType()->isReferenceType() ? "(*" + r + ")" : r;
     }
     if (q.rfind("std::forward_list<",0)==0 && FD->getNameAsString()=="emplace_after") {
